@@ -42,7 +42,7 @@ fn object_info(reg: &Registry, s: &dyn Subject, p: &Ov, path: &Path) -> Option<(
 }
 
 pub fn run(ctx: &Ctx, reg: &Registry) -> i32 {
-    let n_cases: u64 = ctx.tier.pick(800, 10000);
+    let n_cases: u64 = ctx.tier.pick(800, 3000);
     let acc = ctx.par(|shard, n| {
         let mut acc = Acc::new();
         let mut unit = 0u64;
